@@ -61,16 +61,43 @@ func runNumProfile(profile string, thorough bool, seed int64, out string, shards
 		if thorough {
 			n = 40
 		}
-		depthSweep(ws, rng, n, thorough)
+		// the bit-depth functions are called from several goroutines at once, starting with the very first calls
+		// of the process (each goroutine records its own scans into its own file)
+		var wg sync.WaitGroup
+		for i := range ws {
+			wg.Add(1)
+			go func(i int) {
+				defer wg.Done()
+				var part []*numWriter
+				if i == 0 {
+					part = []*numWriter{ws[0]}
+					depthSweepPart(part, rand.New(rand.NewSource(seed*131+int64(i))), n, thorough, i, len(ws), true)
+				} else {
+					depthSweepPart([]*numWriter{ws[i]}, rand.New(rand.NewSource(seed*131+int64(i))), n, thorough, i, len(ws), false)
+				}
+			}(i)
+		}
+		wg.Wait()
 	case "freq":
 		nr, nc := 20, 40
 		if thorough {
 			nr, nc = 300, 200
 		}
+		// different rates are converted concurrently (one goroutine per file)
 		rates := freqRates(rng, nr)
-		for i, r := range rates {
-			freqSweep(ws[i%len(ws)], rand.New(rand.NewSource(seed*977+int64(i))), []float64{r}, nc)
+		var wg sync.WaitGroup
+		for k := range ws {
+			wg.Add(1)
+			go func(k int) {
+				defer wg.Done()
+				for i, r := range rates {
+					if i%len(ws) == k {
+						freqSweep(ws[k], rand.New(rand.NewSource(seed*977+int64(i))), []float64{r}, nc)
+					}
+				}
+			}(k)
 		}
+		wg.Wait()
 	default:
 		return nil, fmt.Errorf("unknown numeric profile %q", profile)
 	}
